@@ -149,6 +149,22 @@ def read(o, kind, name):
     if name == "physproj":
         return [o.calc_proj_eq_constraint(), o.calc_proj_ineq_constraint(), o.calc_proj_physical(),
                 o.calc_proj_physical_with_var(o.to_var(), on_para_eq_constraint=o.on_para_eq_constraint)]
+    if name == "closures":
+        # the function forms handed to optimisers, asked with explicit arguments that differ from the object's own settings:
+        # calling them is a read (the object keeps its value AND its settings)
+        other = "ineq_eq" if o.mode_proj_order == "eq_ineq" else "eq_ineq"
+        full = np.asarray(o.to_stacked_vector(), dtype=float).copy()
+        red = np.asarray(o.to_var(), dtype=float).copy()
+        out = []
+        for flag, v in ((False, full), (True, red if o.on_para_eq_constraint else None)):
+            if v is None:
+                continue
+            out += [o.func_calc_proj_eq_constraint(flag)(v.copy()), o.func_calc_proj_ineq_constraint(flag)(v.copy()),
+                    o.func_calc_proj_eq_constraint_with_var(flag)(v.copy()), o.func_calc_proj_ineq_constraint_with_var(flag)(v.copy())]
+        if kind != "lindbladian":
+            out += [o.func_calc_proj_physical_with_var(on_para_eq_constraint=False, mode_proj_order=other)(full.copy()),
+                    o.func_calc_proj_physical(on_para_eq_constraint=False, mode_proj_order=other)(full.copy())]
+        return out
     if name == "flags":
         return [o.is_physical(), o.is_eq_constraint_satisfied(), o.is_ineq_constraint_satisfied(), o.is_physical(atol_eq_const=1e-3, atol_ineq_const=1e-3)]
     raise core.MachineryError("unknown read " + name)
